@@ -20,8 +20,9 @@ def _stream_trees(c, n, model):
     import penman
     roles, concepts = (AMR_ROLES, AMR_CONCEPTS) if model == 'amr' else (MINI_ROLES, MINI_CONCEPTS)
     if model in ('default', 'noop'):
-        # no role table: a role ending in -of is an inverted role, and inverting it again would write an over-inverted one (O12)
-        roles = [r for r in roles if not r.endswith('-of')] + [':foo', ':bar-baz']
+        # (no role table: a role ending in -of is an inverted role here, and the generator's inversion of it writes an over-inverted
+        # one, O12 - wanted for --canonicalize-roles; whether a clause applies to such an input is decided by J_Cli!InputOK)
+        roles = roles + [':foo', ':bar-baz']
     out = []
     for i in range(n):
         cfg = gen.TreeCfg(wellformed=True, roles=roles, concepts=concepts, max_nodes=6, max_depth=4, p_invert=0.25,
@@ -43,6 +44,8 @@ def _twins(c, model):
     plain = [r for r in roles if not r.endswith('-of')]
     r1, r3 = c.rng.choice(plain), c.rng.choice(plain)
     r2 = ':mod' if ':mod' in plain and c.rng.random() < 0.6 else c.rng.choice(plain)
+    if r2 == r1:                       # the two edges from a to b must be different triples (well-formed)
+        r1 = c.rng.choice([r for r in plain if r != r2])
     c1, c2, c3 = (c.rng.choice(concepts) for _ in range(3))
     inner = ' %s (c / %s)' % (r3, c3) if c.rng.random() < 0.5 else ''
     a = '(a / %s %s (b / %s%s) %s b)' % (c1, r1, c2, inner, r2)
